@@ -7,6 +7,20 @@ VERIF = os.path.dirname(os.path.dirname(os.path.abspath(__file__)))
 ALL = ["C%02d" % i for i in range(1, 21)]
 
 CHECKS = {
+    "C17": dict(
+        engine="Handshake12",
+        category="model_checking",
+        text=("TLC checks TimerLaw, NoTimerHVR, FinalFlightOnlyOnPeerRetx and EmissionBound on the flight machine; the pre-fix resumed "
+              "server (falls back to Waiting after completion) must violate FinalFlightOnlyOnPeerRetx. Every model edge script is replayed "
+              "with virtual timers and the law is evaluated on the real interval/retransmit-flag/emissions after each timer event and "
+              "datagram (new vs retransmitted input, stale twins, backoff disabled); handleRetransmitTimeout is driven in-package to the "
+              "60 s cap; real-time silence runs measure inter-emission gaps for every flight, both roles, DTLS 1.2 and 1.3 (hard lower "
+              "bound I*2^k), floods of stale / replayed / garbage datagrams are held against the emission bound."),
+        design_ref="DESIGN.md 3 (M1), 4 (C17)",
+        note=("Trusted: TLC, the virtual-timer hook (same handler as the real timer), Go timers not firing early. Upper timing bounds are "
+              "informational only. DTLS 1.3 is covered by the real-time and flood runs, not by a 1.3 model yet."),
+        technique="TLA+ model (Handshake12.tla) checked by TLC; edge scripts replayed with law predicates; real-time gap measurement",
+    ),
     "C02": dict(
         engine="Handshake12",
         category="model_checking",
